@@ -844,6 +844,20 @@ class Interp:
             return out_
         if norm(fn) in ('functools.partial', 'partial') and args and 'partial' not in env:
             return ('partial', args[0], tuple(args[1:]), dict(kwargs))
+        if (isinstance(fn, ast.Attribute) and fn.attr == 'copy' and isinstance(fn.value, ast.Name) and fn.value.id == 'copy' and 'copy' not in env
+                and len(args) == 1 and 'copy.copy' not in h.hooks):
+            # copy.copy(x): a new object of the same class with the same attribute values (shallow)
+            a_ = args[0]
+            if not isinstance(a_, Ref):
+                return a_
+            o_ = h.objs[a_.name]
+            if o_['__class__'] == 'dict':
+                d_ = h.new_dict()
+                h.objs[d_.name]['entries'] = list(o_['entries'])
+                return d_
+            if h.is_list(a_):
+                return h.new_list(list(h.items(a_)))
+            return h.alloc(o_['__class__'], {k_: v_ for k_, v_ in o_.items() if k_ != '__class__'})
         if isinstance(fn, ast.Name) and fn.id in h.hooks:
             return h.hooks[fn.id](self, args, kwargs)
         if isinstance(fn, ast.Attribute) and norm(fn) in h.hooks:
